@@ -121,3 +121,51 @@ Qed.
 Lemma rstore_sched_real :
   lowres (run (fun k => Z.of_nat (10 + k)) (init_sys 3) (rstore_sched ++ repeat (Ev 1) 6)) = Some 12.
 Proof. vm_compute. reflexivity. Qed.
+
+(* ------------------------------------------------------------------ a failed refresh ------------------------ *)
+(* updateTS.doUpdate logs a failed getTimestamp and goes on: EvFail leaves the published record alone *)
+Lemma fail_keeps_cell : forall pd s t, cell (step pd s (EvFail t)) = cell s.
+Proof.
+  intros pd s t. cbn [step]. destruct (nth_error (thr s) t) as [th|]; [|reflexivity]. destruct (tpc th); reflexivity.
+Qed.
+
+(* the variant that drops the entry of the scope when a refresher round fails *)
+Definition step_rdelete (pd : nat -> Z) (refresher : nat -> bool) (s : sys) (e : event) : sys :=
+  match e with
+  | EvFail t =>
+      let s' := step pd s e in
+      match nth_error (thr s) t with
+      | Some th => match tpc th with
+                   | PWaitPD => if refresher t then mkSys None (issued s') (clock s') (thr s') else s'
+                   | _ => s'
+                   end
+      | None => s'
+      end
+  | _ => step pd s e
+  end.
+
+Lemma step_rdelete_none : forall pd s e, step_rdelete pd (fun _ => false) s e = step pd s e.
+Proof.
+  intros pd s e. destruct e as [t|t]; cbn [step_rdelete]; auto.
+  destruct (nth_error (thr s) t) as [th|]; auto. destruct (tpc th); auto.
+Qed.
+
+(* thread 0 creates the entry (10); thread 1's answer (11) is issued but arrives late; thread 2 caches 12;
+   refresher round 3 fails and drops the entry; thread 1's late answer re-creates it with 11 *)
+Definition rdelete_sched : list event :=
+  repeat (Ev 0) 9 ++ [Ev 1; Ev 1] ++ repeat (Ev 2) 9 ++ [Ev 3; EvFail 3] ++ repeat (Ev 1) 7.
+
+Lemma rdelete_variant_refuted :
+  exists (pd : nat -> Z), (forall i j, (i < j)%nat -> pd i < pd j) /\
+  exists n refresher es1 es2 v1 v2,
+    lowres (fold_left (step_rdelete pd refresher) es1 (init_sys n)) = Some v1 /\
+    lowres (fold_left (step_rdelete pd refresher) (es1 ++ es2) (init_sys n)) = Some v2 /\ v2 < v1.
+Proof.
+  exists (fun k => Z.of_nat (10 + k)). split; [intros; lia|].
+  exists 4%nat, (fun t => Nat.eqb t 3), (firstn 20 rdelete_sched), (skipn 20 rdelete_sched), 12, 11.
+  vm_compute. repeat split; reflexivity.
+Qed.
+
+Lemma rdelete_sched_real :
+  lowres (run (fun k => Z.of_nat (10 + k)) (init_sys 4) rdelete_sched) = Some 12.
+Proof. vm_compute. reflexivity. Qed.
